@@ -90,6 +90,12 @@ func (vc *VC) Solve(o *Obl, dir string, quickSec, slowSec int, cross bool) {
 		return
 	}
 	o.File = file
+	// hints recorded for the conjuncts of this goal: an earlier proof went through the split, start there
+	if !o.part && hintFor(o.Name+".c1") != nil {
+		if vc.solveSplit(o, dir, quickSec, slowSec) {
+			return
+		}
+	}
 	// stage -2: behind a cut, the focused context (own cut fact + the facts marked keep)
 	if o.Cut != nil {
 		ffile := filepath.Join(dir, smtName(o.Name)+".focused.smt2")
